@@ -142,7 +142,7 @@ func (e *env) open() error {
 		return err
 	}
 	e.st = s
-	// two handlers: the first always succeeds, the second fails for failAt
+	// three handlers: the first and the third always succeed, the second fails for failAt
 	s.OnDelete(func(ctx context.Context, h uint64) error {
 		_, err := s.GetByHeight(ctx, h)
 		if e.slow {
@@ -173,6 +173,14 @@ func (e *env) open() error {
 			return errors.New("scripted handler failure")
 		}
 		e.calls = append(e.calls, c)
+		return nil
+	})
+	// a third handler that always succeeds: a failure of the second one must not be masked by what runs after it
+	s.OnDelete(func(ctx context.Context, h uint64) error {
+		_, err := s.GetByHeight(ctx, h)
+		e.callMu.Lock()
+		defer e.callMu.Unlock()
+		e.calls = append(e.calls, call{H: int(h), Handler: 3, Readable: err == nil, Out: "ok"})
 		return nil
 	})
 	if err := s.Start(context.Background()); err != nil {
